@@ -57,6 +57,7 @@ SetterOp(type) == IF type = 3 THEN "SubRes.SetPlmnDigit" ELSE "SubList.SetPlmnDi
 BuildRestOp(o, e, x, mm) ==
   LET p == UeProjMsg(x) IN
   /\ Chk(P7(e.built) = p, o, "length-not-content", 1)
+  /\ Chk(e.perr \/ e.bmm = mm, o, "built-mccmnc", 0)      \* what the built entries report is what was set on each of them
   /\ IF e.derr THEN Mis(o, "decode-error", 0)
      ELSE /\ Chk(P7(e.dec) = p, o, "decode-not-equal", 0)
           /\ Chk(e.dmm = mm, o, "decode-mccmnc", 0)
